@@ -2,51 +2,36 @@ import Qx.Proofs.C16
 /-!
 # C16 — the server routes only for authenticated clients and stamps their true address
 
-Property theorems only.  Model: `Qx/Model/C16Server.lean`; vocabulary (`Approved`, `JidOf`, `PreauthSafe`,
-`ReplySafe`, `Along`, `NeedsAuth`) and helpers: `Qx/Proofs/C16.lean`.
+Property theorems only.  Model: `Qx/Model/C16Server.lean`; vocabulary (`Approved`, `JidOf`, `NeedsAuth`) and
+helpers: `Qx/Proofs/C16.lean`.
 
 All statements quantify over every password checker (`cfg.check`, `cfg.digestOf`), every domain, every
 number of connections and every interleaved script of any length over the client alphabet
 (`Ev`: stream open, `<auth/>`/`<authenticate/>` with any mechanism name and payload, `<response/>`, `<abort/>`,
 bind, session, message/presence/iq with any from/to, stream close) plus `deliver i` = "the checker finishes
-its i-th outstanding reply".
+its i-th outstanding reply" — in any order, including stanzas before authentication and elements sent while
+a checker reply is still outstanding.  No hypothesis on the script.
 
-Today's code (`cfg.fixPreauth = false`, `cfg.fixReply = false`) violates three of the five claims; for each
-there is a `C16_defect_*` theorem with a witness, a `*_partial` theorem naming the hypothesis under which it
-holds today, and a `*_fixed` theorem showing that it holds for every script once the corresponding diff in
-`/verif/fixes` is applied.  `Out.ub` marks the places where the C++ has undefined behaviour (null `saslServer`,
-disengaged `sasl2AuthRequest`); the model closes the connection there, so nothing is claimed about what the
-real process does after such a point.
+History: before repo commits 73b9a89 and e590a14 three of the five claims were false (pre-authentication
+stanza routed / bind / session answered; a checker reply applied to a later SASL exchange); the witnesses of the
+old `C16_defect_*` theorems are kept as the first scripts of the harness corpus.
+`Out.ub` marks a place where the C++ has undefined behaviour (SASL2 success with a reset `sasl2AuthRequest`);
+the model closes the connection there, so nothing is claimed about what the real process does after it.
 -/
 namespace Qx.C16
 
-/-- both safety conditions, as one predicate on (state, operation) -/
-abbrev Safe (cfg : Cfg) : Server → Nat × Ev → Prop := fun s op => PreauthSafe cfg s op ∧ ReplySafe cfg s op
-
 /-! ## 1. who a connection is accepted as -/
 
-/-- **auth_only_if_checker_approved (partial).**  FULL STATEMENT (false today, see the two defect theorems
-below): for every checker, script and connection `c`, if the server-side jid of `c` is non-empty then it is
-`u@domain` or `u@domain/resource` for a user `u` for which `c` itself has sent a credential that the checker
-approves (`check u p = ok` for a PLAIN pair, resp. a DIGEST-MD5 response computed from exactly `digestOf u`).
-PROVED HERE under the hypothesis `Along … Safe`: (a) no bind/session/stanza is sent on a connection whose jid
-is still empty, and (b) no element is processed on a connection while a checker reply for it is outstanding.
-ANONYMOUS never sets a jid (it is covered by the same statement: no credential, no jid). -/
-theorem auth_only_if_checker_approved_partial (cfg : Cfg) (ops : List (Nat × Ev)) (c : Nat)
-    (hsafe : Along cfg (Safe cfg) init ops) :
+/-- **auth_only_if_checker_approved.**  For every checker, script and connection `c`: if the server-side jid of
+`c` is non-empty then it is `u@domain` or `u@domain/resource` for a user `u` for which `c` itself has sent a
+credential that the checker approves (`check u p = ok` for a PLAIN pair, resp. a DIGEST-MD5 response computed
+from exactly `digestOf u`).  ANONYMOUS never sets a jid (same statement: no credential, no jid). -/
+theorem auth_only_if_checker_approved (cfg : Cfg) (ops : List (Nat × Ev)) (c : Nat) :
     ((run cfg init ops).1.conns c).jid ≠ [] →
       ∃ u, Approved cfg ops c u ∧ JidOf cfg u ((run cfg init ops).1.conns c).jid := by
-  have h := servInv_run cfg ops [] init (servInv_init cfg) hsafe
+  have h := servInv_run cfg ops [] init (servInv_init cfg)
   simp only [List.nil_append] at h
   exact (h c).jid_ok
-
-/-- **auth_only_if_checker_approved, full strength, for the code with both fixes applied**: every script. -/
-theorem auth_only_if_checker_approved_fixed (cfg : Cfg) (h1 : cfg.fixPreauth = true) (h2 : cfg.fixReply = true)
-    (ops : List (Nat × Ev)) (c : Nat) :
-    ((run cfg init ops).1.conns c).jid ≠ [] →
-      ∃ u, Approved cfg ops c u ∧ JidOf cfg u ((run cfg init ops).1.conns c).jid :=
-  auth_only_if_checker_approved_partial cfg ops c
-    (along_of_fixed cfg _ (fun _ _ => ⟨Or.inl h1, Or.inl h2⟩) ops init)
 
 /-- the resource part never eats into the user: when neither the approved user name nor the domain contains
 '/', "u@domain cut at its first '/'" is just `u@domain` -/
@@ -58,34 +43,24 @@ theorem jidOf_plain (cfg : Cfg) (u j : List Char) (h : JidOf cfg u j) (hu : '/' 
 
 /-! ## 2. nothing is bound, routed or answered before authentication -/
 
-/-- **routes_only_authenticated / bind_only_authenticated / nothing answered (partial).**  FULL STATEMENT (false
-today): in the log of every script, every output that presupposes an authenticated sender `c` — a stanza
-handed to routing (`routed`), delivered (`deliver`) or answered by the server (`reply`), a bound resource
-(`connected`), a bind or session result — is preceded by an authentication record `authed c _` of that same
-connection.  PROVED HERE under `Along … PreauthSafe` (no bind/session/stanza while the jid is empty). -/
-theorem needs_auth_only_authenticated_partial (cfg : Cfg) (ops : List (Nat × Ev))
-    (hsafe : Along cfg (PreauthSafe cfg) init ops)
+/-- **needs_auth_only_authenticated.**  In the log of every script, every output that presupposes an
+authenticated sender `c` — a stanza handed to routing (`routed`), delivered (`deliver`) or answered by the server
+(`reply`), a bound resource (`connected`), a bind or session result — is preceded by an authentication record
+`authed c _` of that same connection. -/
+theorem needs_auth_only_authenticated (cfg : Cfg) (ops : List (Nat × Ev))
     (pre : List Out) (x : Out) (post : List Out) (c : Nat)
     (hlog : (run cfg init ops).2 = pre ++ x :: post) (hx : NeedsAuth c x) : ∃ j, Out.authed c j ∈ pre := by
-  simpa using run_needsAuth cfg ops init [] authLog_init hsafe pre x post c hlog hx
+  simpa using run_needsAuth cfg ops init [] authLog_init pre x post c hlog hx
 
-/-- `routes_only_authenticated` (partial): the instance for stanzas handed to routing -/
-theorem routes_only_authenticated_partial (cfg : Cfg) (ops : List (Nat × Ev))
-    (hsafe : Along cfg (PreauthSafe cfg) init ops) (pre post : List Out) (c : Nat) (st : Stanza)
+/-- **routes_only_authenticated**: the instance for stanzas handed to routing -/
+theorem routes_only_authenticated (cfg : Cfg) (ops : List (Nat × Ev)) (pre post : List Out) (c : Nat) (st : Stanza)
     (hlog : (run cfg init ops).2 = pre ++ .routed c st :: post) : ∃ j, Out.authed c j ∈ pre :=
-  needs_auth_only_authenticated_partial cfg ops hsafe pre _ post c hlog rfl
+  needs_auth_only_authenticated cfg ops pre _ post c hlog rfl
 
-/-- `bind_only_authenticated` (partial): the instance for bound resources (`clientConnected`) -/
-theorem bind_only_authenticated_partial (cfg : Cfg) (ops : List (Nat × Ev))
-    (hsafe : Along cfg (PreauthSafe cfg) init ops) (pre post : List Out) (c : Nat) (jid : List Char)
+/-- **bind_only_authenticated**: the instance for bound resources (`clientConnected`) -/
+theorem bind_only_authenticated (cfg : Cfg) (ops : List (Nat × Ev)) (pre post : List Out) (c : Nat) (jid : List Char)
     (hlog : (run cfg init ops).2 = pre ++ .connected c jid :: post) : ∃ j, Out.authed c j ∈ pre :=
-  needs_auth_only_authenticated_partial cfg ops hsafe pre _ post c hlog rfl
-
-/-- the same three claims at **full strength for the code with fixes/C16-preauth.diff applied**: every script -/
-theorem needs_auth_only_authenticated_fixed (cfg : Cfg) (h1 : cfg.fixPreauth = true) (ops : List (Nat × Ev))
-    (pre : List Out) (x : Out) (post : List Out) (c : Nat)
-    (hlog : (run cfg init ops).2 = pre ++ x :: post) (hx : NeedsAuth c x) : ∃ j, Out.authed c j ∈ pre :=
-  needs_auth_only_authenticated_partial cfg ops (along_of_fixed cfg _ (fun _ _ => Or.inl h1) ops init) pre x post c hlog hx
+  needs_auth_only_authenticated cfg ops pre _ post c hlog rfl
 
 /-! ## 3. the stamped address is the sender's own -/
 
@@ -125,11 +100,10 @@ theorem replies_addressed_to_sender (cfg : Cfg) (s : Server) (op : Nat × Ev) (s
   rw [hto, h1]
   exact hem.1
 
-/-- **cannot_spoof, combined with 1. (partial / fixed via `along_of_fixed`)**: in a script that satisfies the
-two safety conditions, the `from` of every stanza delivered on behalf of `src` is the full or bare jid of a
-user `u` whose credential, sent by `src` itself, the checker approved. -/
-theorem cannot_spoof_approved_partial (cfg : Cfg) (ops : List (Nat × Ev)) (op : Nat × Ev)
-    (hsafe : Along cfg (Safe cfg) init ops) (hop : PreauthSafe cfg (run cfg init ops).1 op)
+/-- **cannot_spoof_approved** (cannot_spoof combined with 1.): the `from` of every stanza delivered on behalf of
+`src`, after any script, is the full or bare jid of a user `u` whose credential, sent by `src` itself, the
+checker approved. -/
+theorem cannot_spoof_approved (cfg : Cfg) (ops : List (Nat × Ev)) (op : Nat × Ev)
     (src dst : Nat) (st : Stanza) (h : Out.deliver src dst st ∈ (step cfg (run cfg init ops).1 op).2) :
     ∃ u, Approved cfg ops src u ∧ JidOf cfg u ((run cfg init ops).1.conns src).jid ∧
       (st.sender = ((run cfg init ops).1.conns src).jid ∨ st.sender = bareOf ((run cfg init ops).1.conns src).jid) := by
@@ -141,11 +115,11 @@ theorem cannot_spoof_approved_partial (cfg : Cfg) (ops : List (Nat × Ev)) (op :
     obtain ⟨h1, h2⟩ := (applyOut_stanza_origin cfg s' op.1 co _ hs').2.1 _ _ _ rfl
     rw [h2] at hco
     rw [h1]
-    exact connStep_emit_jid_ne cfg _ _ _ st hop hco
-  obtain ⟨u, hu, hj⟩ := auth_only_if_checker_approved_partial cfg ops src hsafe hne
+    exact connStep_emit_jid_ne cfg _ _ _ st hco
+  obtain ⟨u, hu, hj⟩ := auth_only_if_checker_approved cfg ops src hne
   exact ⟨u, hu, hj, hfrom⟩
 
-/-! ## 4. what today's code does instead (defects, with witnesses) -/
+/-! ## 4. concrete runs: the statements are about real, non-trivial scripts -/
 
 /-- a checker that knows one account: user "m" with password "p" (digest token "h") -/
 def demoCfg : Cfg :=
@@ -154,102 +128,13 @@ def demoCfg : Cfg :=
     digestOf := fun u => if u = ['m'] then .digest ['h'] else .nouser }
 
 def plainName : List Char := ['P', 'L', 'A', 'I', 'N']
-def victimJid : List Char := ['v', '@', 'd', '/', 'v']
 
-/-- a message without `from`, to the victim's full jid -/
-def msgToVictim : Ev := .stanza { kind := .message, sender := [], to := victimJid }
-
-/-- **Defect (C16:preauth-stanza-routed).**  `routes_only_authenticated` is false for today's code: after nothing
-but a stream header, a message is stamped `from=""`, handed to routing — with no authentication record
-anywhere before it. -/
-theorem C16_defect_preauth_stanza_routed :
-    ¬ (∀ (cfg : Cfg), cfg.fixPreauth = false → ∀ (ops : List (Nat × Ev)) (pre post : List Out) (c : Nat) (st : Stanza),
-        (run cfg init ops).2 = pre ++ .routed c st :: post → ∃ j, Out.authed c j ∈ pre) := by
-  intro h
-  have h1 := h demoCfg rfl [(1, .openStream ['d']), (1, msgToVictim)]
-    [.send 1 .hdr, .send 1 (.features false false true (some true))] [] 1
-    { kind := .message, sender := [], to := victimJid } (by decide)
-  simp at h1
-
-/-- …and the stamped stanza really reaches a logged-in user: with the victim (connection 0, user "m" here)
-logged in, the unauthenticated connection 1's message is written to connection 0's socket with `from=""`. -/
-theorem C16_defect_preauth_stanza_delivered :
-    Out.deliver 1 0 { kind := .message, sender := [], to := ['m', '@', 'd', '/', 'v'] } ∈
-      (run demoCfg init
-        [(0, .openStream ['d']), (0, .auth false plainName (.creds ['m'] ['p']) false), (0, .deliver 0), (0, .bind ['v']),
-         (1, .openStream ['d']),
-         (1, .stanza { kind := .message, sender := [], to := ['m', '@', 'd', '/', 'v'] })]).2 := by
-  decide
-
-/-- **Defect (C16:preauth-bind).**  `bind_only_authenticated` and `auth_only_if_checker_approved` are false for
-today's code: a bind request right after the stream header is answered, the connection gets the jid "/r"
-(non-empty, belonging to no user at all) and is registered for routing under it. -/
-theorem C16_defect_preauth_bind :
-    ¬ (∀ (cfg : Cfg), cfg.fixPreauth = false → cfg.fixReply = false → ∀ (ops : List (Nat × Ev)) (c : Nat),
-        ((run cfg init ops).1.conns c).jid ≠ [] →
-          ∃ u, Approved cfg ops c u ∧ JidOf cfg u ((run cfg init ops).1.conns c).jid) := by
-  intro h
-  obtain ⟨u, ⟨ev, hm, ha⟩, _⟩ := h demoCfg rfl rfl [(1, .openStream ['d']), (1, .bind ['r'])] 1 (by decide)
-  simp only [List.mem_cons, List.not_mem_nil, or_false, Prod.mk.injEq, true_and] at hm
-  rcases hm with rfl | rfl <;> simp [Approves, Ev.payload] at ha
-
-theorem C16_defect_preauth_bind_connected :
-    (run demoCfg init [(1, .openStream ['d']), (1, .bind ['r'])]).2 =
-      [.send 1 .hdr, .send 1 (.features false false true (some true)),
-       .send 1 (.bindResult ['/', 'r']), .connected 1 ['/', 'r']] := by
-  decide
-
-/-- **Defect (C16:preauth-session-answered).**  A session request before authentication is answered. -/
-theorem C16_defect_preauth_session_answered :
-    ¬ (∀ (cfg : Cfg), cfg.fixPreauth = false → ∀ (ops : List (Nat × Ev)) (pre post : List Out) (c : Nat) (x : Out),
-        (run cfg init ops).2 = pre ++ x :: post → NeedsAuth c x → ∃ j, Out.authed c j ∈ pre) := by
-  intro h
-  have h1 := h demoCfg rfl [(1, .openStream ['d']), (1, .session)]
-    [.send 1 .hdr, .send 1 (.features false false true (some true))] [] 1 (.send 1 (.sessionResult [])) (by decide) rfl
-  simp at h1
-
-/-- **Defect (C16:reply-confusion).**  `auth_only_if_checker_approved` is false for today's code even for clients
-that never send a stanza before they are authenticated: the reply to a password check is applied to whatever
-SASL object is current when it arrives.  Witness: `<auth>` with the attacker's own good credentials ("m","p"),
-a second `<auth>` naming the victim "v" with a wrong password before the first reply has arrived, then the
-first reply (ok): the connection is now `v@d`, although no credential for "v" was ever approved. -/
-theorem C16_defect_reply_confusion :
-    ¬ (∀ (cfg : Cfg), cfg.fixReply = false → ∀ (ops : List (Nat × Ev)) (c : Nat),
-        Along cfg (PreauthSafe cfg) init ops →
-        ((run cfg init ops).1.conns c).jid ≠ [] →
-          ∃ u, Approved cfg ops c u ∧ JidOf cfg u ((run cfg init ops).1.conns c).jid) := by
-  intro h
-  obtain ⟨u, ⟨ev, hm, ha⟩, hj⟩ := h demoCfg rfl
-    [(1, .openStream ['d']), (1, .auth false plainName (.creds ['m'] ['p']) false),
-     (1, .auth false plainName (.creds ['v'] ['x']) false), (1, .deliver 0)] 1 (by decide) (by decide)
-  have hjid : ((run demoCfg init [(1, .openStream ['d']), (1, .auth false plainName (.creds ['m'] ['p']) false),
-     (1, .auth false plainName (.creds ['v'] ['x']) false), (1, .deliver 0)]).1.conns 1).jid = ['v', '@', 'd'] := by decide
-  rw [hjid] at hj
-  simp only [List.mem_cons, List.not_mem_nil, or_false, Prod.mk.injEq, true_and] at hm
-  have hu : u = ['m'] := by
-    rcases hm with rfl | rfl | rfl | rfl
-    · simp [Approves, Ev.payload] at ha
-    · simp only [Approves, Ev.payload] at ha
-      exact ha.1.symm
-    · simp only [Approves, Ev.payload] at ha
-      obtain ⟨hv, hc⟩ := ha
-      subst hv
-      exact absurd hc (by decide)
-    · simp [Approves, Ev.payload] at ha
-  subst hu
-  rcases hj with hj | ⟨r, hj⟩
-  · exact absurd hj (by decide)
-  · simp [withRes, bareOf, mkBare, demoCfg, List.takeWhile] at hj
-
-/-! ## 5. non-vacuity: the hypotheses are met by real, non-trivial scripts -/
-
-/-- PLAIN login, bind, session, a message to somebody: satisfies both safety conditions … -/
+/-- PLAIN login, bind, session, a message to somebody … -/
 def goodScript : List (Nat × Ev) :=
   [(1, .openStream ['d']), (1, .auth false plainName (.creds ['m'] ['p']) false), (1, .deliver 0),
    (1, .openStream ['d']), (1, .bind ['r']), (1, .session),
    (1, .stanza { kind := .message, sender := [], to := ['x', '@', 'd'] })]
 
-example : Along demoCfg (Safe demoCfg) init goodScript := by decide
 /-- … ends authenticated and bound … -/
 example : ((run demoCfg init goodScript).1.conns 1).jid = ['m', '@', 'd', '/', 'r'] := by decide
 /-- … and its log contains the authentication record, the bound resource and the routed stanza, stamped with
@@ -276,13 +161,32 @@ example : (step demoCfg (run demoCfg init goodScript).1
     [.routed 1 { kind := .message, sender := ['m', '@', 'd'], to := ['m', '@', 'd', '/', 'r'] },
      .deliver 1 1 { kind := .message, sender := ['m', '@', 'd'], to := ['m', '@', 'd', '/', 'r'] }] := by decide
 
-/-- with the fixes switched on, the two witnesses above no longer work: the stanza before authentication ends
-the stream, and the stale reply is dropped with the SASL object that asked for it -/
-example : (run { demoCfg with fixPreauth := true } init [(1, .openStream ['d']), (1, msgToVictim)]).2 =
+/-- the witnesses of the former defects (kept first in the harness corpus): a message before authentication
+ends the stream with `not-authorized` and reaches nobody, … -/
+example : (run demoCfg init
+    [(0, .openStream ['d']), (0, .auth false plainName (.creds ['m'] ['p']) false), (0, .deliver 0), (0, .bind ['v']),
+     (1, .openStream ['d']),
+     (1, .stanza { kind := .message, sender := [], to := ['m', '@', 'd', '/', 'v'] })]).2 =
+    [.send 0 .hdr, .send 0 (.features false false true (some true)), .authed 0 ['m', '@', 'd'], .send 0 .success1,
+     .send 0 (.bindResult ['m', '@', 'd', '/', 'v']), .connected 0 ['m', '@', 'd', '/', 'v'],
+     .send 1 .hdr, .send 1 (.features false false true (some true)),
+     .send 1 (.streamError .streamNotAuthorized), .send 1 .streamEnd, .closed 1] := by decide
+/-- … so do bind and session before authentication, … -/
+example : (run demoCfg init [(1, .openStream ['d']), (1, .bind ['r'])]).2 =
     [.send 1 .hdr, .send 1 (.features false false true (some true)),
      .send 1 (.streamError .streamNotAuthorized), .send 1 .streamEnd, .closed 1] := by decide
-example : ((run { demoCfg with fixReply := true } init
+example : (run demoCfg init [(1, .openStream ['d']), (1, .session)]).2 =
+    [.send 1 .hdr, .send 1 (.features false false true (some true)),
+     .send 1 (.streamError .streamNotAuthorized), .send 1 .streamEnd, .closed 1] := by decide
+/-- … and the reply to the attacker's own good credentials dies with the SASL object that asked for it when a
+second `<auth/>` (victim "v", wrong password) replaces it: nothing is left to deliver, no jid is set. -/
+example : ((run demoCfg init
     [(1, .openStream ['d']), (1, .auth false plainName (.creds ['m'] ['p']) false),
-     (1, .auth false plainName (.creds ['v'] ['x']) false), (1, .deliver 0)]).1.conns 1).jid = [] := by decide
+     (1, .auth false plainName (.creds ['v'] ['x']) false), (1, .deliver 0), (1, .deliver 0)]).1.conns 1).jid = [] := by decide
+example : (run demoCfg init
+    [(1, .openStream ['d']), (1, .auth false plainName (.creds ['m'] ['p']) false),
+     (1, .auth false plainName (.creds ['v'] ['x']) false), (1, .deliver 0)]).2 =
+    [.send 1 .hdr, .send 1 (.features false false true (some true)),
+     .send 1 (.failure false .notAuthorized), .send 1 .streamEnd, .closed 1] := by decide
 
 end Qx.C16
